@@ -91,6 +91,19 @@ func (a *Affiliation) computeTriggersForCastingSites(pass *analysishelper.Enhanc
 		a.triggers = append(a.triggers, a.computeTriggersForTypes(lhsType, rhsType, upstreamCache, currentCache)...)
 	}
 
+	// appendTypeAssertTriggers handles the assertion of a value of the interface type `xType` to the type `assertedType`
+	appendTypeAssertTriggers := func(xType, assertedType types.Type) {
+		lhsType, rhsType := xType, assertedType
+		if rhsType != nil {
+			if _, ok := rhsType.Underlying().(*types.Interface); ok {
+				// e.g., v, ok := j.(I), where I is also an interface: the value flows from its
+				// static interface type J to I, i.e., here J plays the role of the implementation
+				lhsType, rhsType = rhsType, lhsType
+			}
+		}
+		appendTypeToTypeTriggers(lhsType, rhsType)
+	}
+
 	for _, file := range pass.Files {
 		if !a.conf.IsFileInScope(file) {
 			continue
@@ -183,16 +196,24 @@ func (a *Affiliation) computeTriggersForCastingSites(pass *analysishelper.Enhanc
 
 				case *ast.TypeAssertExpr:
 					// e.g., v, ok := i.(*S)
-					lhsType := pass.TypesInfo.TypeOf(node.X)
-					rhsType := pass.TypesInfo.TypeOf(node.Type)
-					if rhsType != nil {
-						if _, ok := rhsType.Underlying().(*types.Interface); ok {
-							// e.g., v, ok := j.(I), where I is also an interface: the value flows from its
-							// static interface type J to I, i.e., here J plays the role of the implementation
-							lhsType, rhsType = rhsType, lhsType
+					// (`node.Type` is nil for the guard `i.(type)` of a type switch, which is handled below.)
+					if node.Type != nil {
+						appendTypeAssertTriggers(pass.TypesInfo.TypeOf(node.X), pass.TypesInfo.TypeOf(node.Type))
+					}
+
+				case *ast.TypeSwitchStmt:
+					// e.g., switch v := i.(type) { case *S: ...; case I: ... }: in a clause that lists a single
+					// type, the variable `v` is of that type, i.e., the clause is the type assertion `v := i.(I)`.
+					// (In all other clauses `v` keeps the type of `i`, and without `v` no value flows.)
+					if assign, ok := node.Assign.(*ast.AssignStmt); ok && len(assign.Rhs) == 1 {
+						if guard, ok := ast.Unparen(assign.Rhs[0]).(*ast.TypeAssertExpr); ok {
+							for _, stmt := range node.Body.List {
+								if clause, ok := stmt.(*ast.CaseClause); ok && len(clause.List) == 1 {
+									appendTypeAssertTriggers(pass.TypesInfo.TypeOf(guard.X), pass.TypesInfo.TypeOf(clause.List[0]))
+								}
+							}
 						}
 					}
-					appendTypeToTypeTriggers(lhsType, rhsType)
 
 				case *ast.ReturnStmt:
 					// function signature states interface return, but the actual return is a struct
